@@ -145,6 +145,10 @@ def expected_validator(p: dict) -> Any:
             return ("optional", ("fn", "validators", "integer_validator"))
         if names == ["null", "uinteger"]:
             return ("optional", ("fn", "validators", "uinteger_validator"))
+    if t["kind"] == "or" and len(t["items"]) == 2 and sorted(i["kind"] for i in t["items"]) == ["base", "stringLiteral"] \
+            and any(i["kind"] == "base" and i["name"] == "null" for i in t["items"]):
+        # `"x" | null`: a string-literal property all the same - it only accepts its literal (or null)
+        return ("optional", ("in", (next(i["value"] for i in t["items"] if i["kind"] == "stringLiteral"),)))
     if base is None:
         return None
     return ("optional", base) if p.get("optional") else base
